@@ -115,3 +115,29 @@ def aged(rng, tree, steps=None, allowed=None, reader=None):
         tree, name = mutate(rng, tree, allowed)
         past.append(name)
     return tree, past
+
+
+def batch_read(rng, ts, fmt="export"):
+    """all trees of ONE file written by the tool's writer, read completely (list(reader)) before anything is done with
+    the first one - the usual way to hold a treebank in memory.  Returns the reader-made trees, or None where the
+    format cannot carry the trees."""
+    try:
+        with cli.Scratch() as sc:
+            s = io.StringIO()
+            with quiet():
+                if fmt == "tigerxml":
+                    treeoutput.tigerxml_begin(s)
+                for i, t in enumerate(ts):
+                    c = clone(t)
+                    c.data['sid'] = i + 1
+                    getattr(treeoutput, fmt)(c, s)
+                if fmt == "tigerxml":
+                    treeoutput.tigerxml_end(s)
+            p = sc.write("t." + fmt, s.getvalue())
+            with quiet():
+                out = list(getattr(treeinput, fmt)(p, "utf-8"))
+        if len(out) == len(ts) and all(len(trees.terminals(a)) == len(trees.terminals(b)) for a, b in zip(out, ts)):
+            return out
+    except Exception:
+        pass
+    return None
